@@ -73,10 +73,14 @@ DCbBegin(n, runs) ==       \* sink callback entered with a block of n bytes whos
 DCbEnd ==
   /\ inCb > 0 /\ inCb' = inCb - 1 /\ pend' = RDrop(pend, cbSize) /\ delivered' = delivered + cbSize /\ cbSize' = 0 /\ inHand' = 0
   /\ UNCHANGED <<cur, full, freeN, buffNum, stop, handLo, hold, appender, remain, off, entered, copied, doneBytes, atCleanup>>
-DShrink(num) ==            \* "ap.b.shrink": more than MinB buffers -> delete this one
-  \* (when a buffer is given back to the heap is policy: the code keeps MinB)
+DShrinkHeld(num) ==        \* "ap.b.shrink": more than MinB buffers -> delete the buffer just delivered (what the code does)
   /\ hold /\ inCb = 0 /\ buffNum' = buffNum - 1 /\ num = buffNum' /\ hold' = FALSE
   /\ UNCHANGED <<cur, full, freeN, stop, inHand, handLo, inCb, appender, remain, pend, off, entered, copied, delivered, doneBytes, atCleanup, cbSize>>
+DShrinkFree(num) ==        \* an idle buffer of the free list is deleted instead
+  /\ freeN > 0 /\ freeN' = freeN - 1 /\ buffNum' = buffNum - 1 /\ num = buffNum'
+  /\ UNCHANGED <<cur, full, hold, stop, inHand, handLo, inCb, appender, remain, pend, off, entered, copied, delivered, doneBytes, atCleanup, cbSize>>
+\* when a buffer is given back to the heap, and which idle one, is policy (C10 does not speak about it): recorded executions may do either
+DShrink(num) == DShrinkHeld(num) \/ DShrinkFree(num)
 DRecycle(freeLen) ==       \* "ap.b.recycle" (the decision not to delete was taken earlier, under buff_num_mutex_)
   /\ hold /\ inCb = 0 /\ freeN' = freeN + 1 /\ freeLen = freeN' /\ hold' = FALSE
   /\ UNCHANGED <<cur, full, buffNum, stop, inHand, handLo, inCb, appender, remain, pend, off, entered, copied, delivered, doneBytes, atCleanup, cbSize>>
